@@ -827,6 +827,9 @@ func Validate(dir Dir) error {
 			case idx == i:
 				// If the file is in its original place, it was edited.
 				err.Reason = ReasonEdited
+			case i >= len(ex):
+				// The sum file lists more entries than the directory has files.
+				err.Reason = ReasonRemoved
 			default:
 				// File was not in its original place, meaning another file was added before it.
 				err.File = ex[i].N
